@@ -26,8 +26,28 @@ def comp_generic(expr, cc):
     return expr.xreplace(reps)
 
 
+def perm_invariant(expr):
+    """Is the expression unchanged under every permutation of the Cartesian components of all centres (e.g. |A-B|^2)?"""
+    for perm in ((1, 0, 2), (0, 2, 1)):  # two transpositions generate S3
+        rep = {}
+        for fn in CENTRES:
+            for app in expr.atoms(fn):
+                if app.args[0].is_number:
+                    rep[app] = fn(sp.Integer(perm[int(app.args[0])]), *app.args[1:])
+        e2 = expr.xreplace(rep)
+        if e2 != expr:
+            try:
+                if not is_zero(sp.expand(e2) - sp.expand(expr)):
+                    return False
+            except Exception:
+                return False
+    return True
+
+
 def components_used(expr):
     out = set()
+    if perm_invariant(expr):
+        return out  # a scalar of the geometry (distance), not a component of it
     for fn in CENTRES:
         for app in expr.atoms(fn):
             if app.args[0].is_number:
